@@ -4,6 +4,7 @@ import ast
 from ..model import (AnalysisError, FUNC_TYPES, U, call_attr, call_name, dotted, enclosing, guard_texts, short, walk_body, const_str)
 from ..util import params, find_calls, assigns_to, trace, stmt_of
 from ..absint import unroll_literal_loops
+from .. import feat
 
 IR = "insights.parsers.installed_rpms"
 RV = "insights.parsers.rpm_vercmp"
@@ -394,7 +395,8 @@ def r4_normalisation(cx):
         ok = not n.generators[0].ifs and isinstance(n.elt, ast.IfExp)
         sep = None
         if ok:
-            sep = n.elt.orelse.value if isinstance(n.elt.orelse, ast.Constant) else None
+            sv = feat.resolve_const(m, fn, n.elt.orelse)        # a literal, or a module-level / local constant naming it
+            sep = sv.value if isinstance(sv, ast.Constant) else None
             ok = U(n.elt.body) == U(n.generators[0].target) and isinstance(sep, str) and len(sep) == 1 and not sep.isalnum() and sep not in "~^" and "ord(" in U(n.elt.test)
         cx.require(ok, a, "every character of '%s' yields one element; non-ASCII ones are replaced by a separator (rpm treats them as separators; dropping them would glue the neighbouring segments together)" % p,
                    construct=short(a, 120))
